@@ -119,4 +119,79 @@ theorem params_ok (t : Table) (roots : List Nat) (idx crc cache : Bool) (sc : Li
   · rw [hcache, hdl]
     exact maxOffset_fits _ cache
 
+theorem flatMap_BE_length (w : Nat) (l : List Nat) : (l.flatMap (toBytesBE w)).length = w * l.length := by
+  induction l with
+  | nil => simp
+  | cons x xs ih => simp [List.flatMap_cons, ih, Nat.mul_succ]; omega
+
+theorem emitCell_length_le (size : Nat) (r : CellRow) (hs : size ≤ 4) (hb : r.bits.length ≤ 1023)
+    (hr : r.refs.length ≤ 4) : (emitCell size r none).length ≤ 146 := by
+  have hfl : (r.refs.flatMap (toBytesBE size)).length = size * r.refs.length := by
+    clear hr
+    induction r.refs with
+    | nil => simp
+    | cons x xs ih => simp [List.flatMap_cons, ih, Nat.mul_succ]; omega
+  have : size * r.refs.length ≤ 4 * 4 := Nat.mul_le_mul hs hr
+  simp only [emitCell, Option.isSome_none, Option.getD_none, List.nil_append, List.length_cons, List.length_append,
+    Boc.toppedUp_length, hfl]
+  omega
+
+theorem emitCells_flatten_le (size : Nat) (hs : size ≤ 4) (rows : List CellRow)
+    (h : ∀ r ∈ rows, r.bits.length ≤ 1023 ∧ r.refs.length ≤ 4) :
+    (emitCells size rows []).flatten.length ≤ 146 * rows.length := by
+  induction rows with
+  | nil => simp [emitCells]
+  | cons r rs ih =>
+    simp only [emitCells, List.headD_nil, List.tail_nil, List.flatten_cons, List.length_append, List.length_cons]
+    have h1 := emitCell_length_le size r hs (h r (by simp)).1 (h r (by simp)).2
+    have h2 := ih (fun x hx => h x (by simp [hx]))
+    omega
+
+/-- the output of serializeBoc is far below the size of a Go slice (for fewer than 2²⁴ cells) -/
+theorem serializeOrdered_length_lt (t : Table) (roots : List Nat) (idx crc cache : Bool) (sc : List Bool)
+    (hrows : ∀ i (h : i < t.size), t[i].bits.length ≤ 1023 ∧ t[i].refs.length ≤ 4)
+    (hn : t.size < 16777216) (hrn : roots.length ≤ t.size) :
+    (serializeOrdered t roots idx crc cache sc).length < two63 := by
+  have hsz3 : refByteSize t.size ≤ 3 := refByteSize_le _ _ (by omega) (by simpa using hn)
+  have hdata : dataSize (refByteSize t.size) t ≤ 146 * t.size := by
+    have := emitCells_flatten_le (refByteSize t.size) (by omega) t.toList (by
+      intro r hr
+      obtain ⟨i, hi, rfl⟩ := List.getElem_of_mem hr
+      have hi' : i < t.size := by simpa using hi
+      simpa using hrows i hi')
+    simpa [dataSize] using this
+  have hoff : offByteSize (maxOffset (dataSize (refByteSize t.size) t) cache) ≤ 8 := by
+    unfold offByteSize
+    apply byteSize_le _ _ (by omega)
+    apply bitLen_le
+    unfold maxOffset
+    split <;> omega
+  unfold serializeOrdered
+  obtain ⟨B, h1, h2⟩ := emitBoc_form (params t idx crc cache sc) t roots
+  rw [h1, h2]
+  have hm : (magicBytes (params t idx crc cache sc).magic).length = 4 := magicBytes_length _
+  have hroots : ((if (params t idx crc cache sc).magic = 0 then roots.flatMap (toBytesBE (params t idx crc cache sc).size) else [])).length
+      ≤ 3 * roots.length := by
+    have := flatMap_BE_length (refByteSize t.size) roots
+    simp only [params, if_true]
+    rw [this]
+    exact Nat.mul_le_mul_right _ hsz3
+  have hidx : ((if (params t idx crc cache sc).idx then emitIndex (params t idx crc cache sc).offBytes
+      (params t idx crc cache sc).cache 0 (emitCells (params t idx crc cache sc).size t.toList (params t idx crc cache sc).stored)
+      (params t idx crc cache sc).cacheBits else [])).length ≤ 8 * t.size := by
+    split
+    · rw [emitIndex_length, emitCells_length]
+      simp only [Array.length_toList]
+      exact Nat.mul_le_mul_right _ hoff
+    · simp
+  have hcrc : ((if (params t idx crc cache sc).crc = true then toBytesLE32 (Crc.crc32c B).toNat else [])).length ≤ 4 := by
+    split <;> simp [toBytesLE32]
+  have hd : (emitCells (params t idx crc cache sc).size t.toList (params t idx crc cache sc).stored).flatten.length
+      ≤ 146 * t.size := hdata
+  simp only [List.length_append, List.length_cons, toBytesBE_length, hm]
+  have hs : (params t idx crc cache sc).size ≤ 3 := hsz3
+  have ho : (params t idx crc cache sc).offBytes ≤ 8 := hoff
+  unfold two63
+  omega
+
 end Tongo.Boc.Writer
